@@ -28,7 +28,9 @@ Pre == Trace[l - 1]
 Cond == FMax(FDiv(O.M1, O.M2), FDiv(O.M2, O.M1))
 IsChain == E.ev \in {"New", "Conv"}
 
-KnownEvent == E.ev \in {"New", "Conv", "Construct"}
+KnownEvent == E.ev \in {"New", "Conv", "Construct", "ConvRaised"}
+\* the conversion is total on valid compositions (it fixes 0 and 1, so it cannot leave [0,1])
+Cl_ConversionTotal == E.ev # "ConvRaised"
 
 \* --- the recorded step is a step of the specification
 Step_Conv == (E.ev = "Conv") =>
